@@ -225,6 +225,315 @@ def bind_line(r: dict, npos: int, kws: list[str]) -> str:
     )
 
 
+# ----------------------------------------------------------------------------- defaults of omitted arguments
+
+
+def enc_dval(d) -> str:
+    k = d[0]
+    if k in ("absent", "none", "opaque"):
+        return k[0]
+    if k == "bool":
+        return "bT" if d[1] else "bF"
+    if k == "num":
+        return f"q{d[1]}_{d[2]}"
+    if k == "str":
+        return "s" + (",".join(str(ord(c)) for c in d[1]) or "-")
+    return "l" + (";".join(f"{n}_{m}" for n, m in d[1]) or "-")
+
+
+def dflt_line(r: dict, pdef=None) -> str:
+    return " ".join(["dflt", "traced" if r["traceOnly"] else "scripted", "P"] + [enc_aarg(a) for a in r["aten"]["positional"]] + ["K"]
+                    + [enc_aarg(a) for a in r["aten"]["kwonly"]] + ["S"] + [enc_param(p) for p in r["sig"]]
+                    + ["D"] + [enc_dval(d) for d in r["adef"]] + ["E"] + [enc_dval(d) for d in (pdef if pdef is not None else r["pdef"])])
+
+
+def dv_judged(d) -> bool:
+    return d[0] in ("bool", "num", "str", "nums")
+
+
+def dv_agree(u, v) -> bool:
+    norm = lambda d: ["num", int(d[1]), 1] if d[0] == "bool" else d  # python's True == 1
+    return not (dv_judged(u) and dv_judged(v)) or json.dumps(norm(u)) == json.dumps(norm(v))
+
+
+def eff_defaults(r: dict, pdef=None) -> list:
+    """Twin of Lean `effDefaults`: the scripted binder fills an unbound input with None."""
+    pdef = r["pdef"] if pdef is None else pdef
+    return [("none",) if (not r["traceOnly"]) and p["isInput"] and d[0] != "absent" else d for p, d in zip(r["sig"], pdef)]
+
+
+def default_pairs(r: dict) -> list[tuple[int, int]]:
+    """(schema argument number, parameter number) pairs `bind` pairs: positional i with parameter i, keyword-only with its name."""
+    pos, kw, s = r["aten"]["positional"], r["aten"]["kwonly"], r["sig"]
+    return [(i, i) for i in range(len(pos)) if i < len(s)] + [
+        (len(pos) + k, j) for k, x in enumerate(kw) for j, p in enumerate(s) if p["name"] == x["name"]]
+
+
+def defaults_twin(r: dict, pdef=None) -> str:
+    """Twin of the driver's `dflt` answer."""
+    args, s = r["aten"]["positional"] + r["aten"]["kwonly"], r["sig"]
+    adef, pd = r["adef"], (r["pdef"] if pdef is None else pdef)
+    if (len(adef) != len(args) or len(pd) != len(s) or any(x["hasDefault"] != (d[0] != "absent") for x, d in zip(args, adef))
+            or any(p["pyDefault"] != (d[0] != "absent") for p, d in zip(s, pd))):
+        return "shape"
+    eff = eff_defaults(r, pd)
+    bad = [(i, j) for i, j in default_pairs(r) if not dv_agree(adef[i], eff[j])]
+    return ",".join(f"{i}:{j}" for i, j in bad) or "ok"
+
+
+def mutate_dval(rng, d):
+    """A different concrete default of the same kind (generator of the class 'python default drifted from the schema')."""
+    k = d[0]
+    if k == "bool":
+        return ("bool", not d[1])
+    if k == "num":
+        return rng.choice([("num", d[1] + d[2], d[2]), ("num", -d[1] - 1, d[2]), ("num", 2 * d[1] + 1, 2 * d[2]), ("bool", True), ("none",)])
+    if k == "str":
+        return ("str", d[1] + "x")
+    if k == "nums":
+        return rng.choice([("nums", d[1] + [[1, 1]]), ("nums", [[n + m, m] for n, m in d[1]] or [[0, 1]]), ("num", 1, 1)])
+    return rng.choice([("num", 0, 1), ("bool", False), ("str", "")])
+
+
+def defaults_stream(run, drv, rows, objs, rb, stats, problems, tie_broken) -> None:
+    """Defaults of omitted arguments.
+    (1) twin = Lean `dflt` on every row with a schema (real rows), and on rows whose python defaults were perturbed
+        (boundary generator: the same kind with another value, another kind, None) — model-level tie of `defaultsOk`/`effDefaults`;
+    (2) real code: the *minimal* conforming call goes through the real binder; the value every unbound parameter is really
+        filled with (`param.default` of the exporter's OpSignature / the function's python default) must (a) be the default the
+        row records (`pdef` through `effDefaults`) and (b) not be a different concrete value from the structured schema default
+        (`torch._C.Argument.default_value`) of the schema argument it is paired with — the property's oracle."""
+    idx = [i for i, r in enumerate(rows) if r["res"] in ("resolved", "builtin")]
+    outs = drv.ask([dflt_line(rows[i]) for i in idx])
+    for i, o in zip(idx, outs):
+        r = rows[i]
+        stats["default_rows"] += 1
+        t = defaults_twin(r)
+        if t != o:
+            raise core.Infra(f"python twin and Lean model disagree on defaults of {r['qualified']}: twin={t} lean={o}")
+        for a, j in default_pairs(r):
+            u, v = r["adef"][a], eff_defaults(r)[j]
+            stats["default_pairs"] += 1
+            if dv_judged(u) and dv_judged(v):
+                stats["default_pairs_judged"] += 1
+                stats["default_pairs_judged_" + u[0]] += 1
+            elif u[0] != "absent" and v[0] != "absent":
+                stats["default_pairs_not_judged_" + u[0] + "_" + v[0]] += 1
+    # perturbed rows (model-level only)
+    lines, want = [], []
+    cand = [i for i in idx if any(d[0] != "absent" for d in rows[i]["pdef"])]
+    for i in run.rng.sample(cand, min(len(cand), run.size(150, len(cand)))):
+        r = rows[i]
+        js = [j for j, d in enumerate(r["pdef"]) if d[0] != "absent"]
+        j = run.rng.choice(js)
+        pd = list(r["pdef"])
+        pd[j] = mutate_dval(run.rng, pd[j])
+        lines.append(dflt_line(r, pd))
+        want.append((r, defaults_twin(r, pd)))
+    for (r, t), o in zip(want, drv.ask(lines)):
+        stats["default_perturbed_rows"] += 1
+        stats["default_perturbed_" + ("ok" if t == "ok" else "differs")] += 1
+        if t != o:
+            raise core.Infra(f"python twin and Lean model disagree on perturbed defaults of {r['qualified']}: twin={t} lean={o}")
+    # real binder on the minimal call
+    for i in idx:
+        r, f = rows[i], objs[i]
+        if r["res"] != "resolved":
+            continue
+        npos = nreq_pos(r["aten"])
+        kws = [k["name"] for k in r["aten"]["kwonly"] if not k["hasDefault"]]
+        res = judge_defaults(r, f, rb, npos, kws)
+        if res is None:
+            stats["default_min_call_rejected"] += 1  # binding failure: reported by the bind stream
+            continue
+        stats["default_min_calls"] += 1
+        bad, ties, n = res
+        stats["default_fills_checked"] += n
+        for t in ties:
+            tie_broken.append({"kind": "default-fill", "qualified": r["qualified"], "npos": npos, "kws": kws, "detail": t})
+        for omitted, detail in bad:
+            stats["default_fills_differing"] += 1
+            problems.append({"kind": "call", "qualified": r["qualified"], "isComplex": r["isComplex"], "npos": npos, "kws": kws,
+                             "defects": ["defaultDiffers"], "schema": r["schemaText"], "function": r["func"], "omitted": omitted,
+                             "detail": detail})
+
+
+def judge_defaults(r: dict, f, rb, npos: int, kws: list[str]):
+    """The property's oracle for omitted arguments on the real binder: -> None (call rejected) |
+    ([(omitted argument, what differs)], [tie disagreements], number of fills looked at)."""
+    filled = rb.fill(f, npos, kws)
+    if filled is None:
+        return None
+    again = rb.fill(f, npos, kws)  # second use of the same function object / OpSignature: the fill-ins must not have moved
+    eff = eff_defaults(r)
+    args = r["aten"]["positional"] + r["aten"]["kwonly"]
+    bad, ties, n = [], [], 0
+    if again is None or {k: ex.dval(v) for k, v in again.items()} != {k: ex.dval(v) for k, v in filled.items()}:
+        ties.append(f"binding the same call a second time fills {again!r}, the first time {filled!r}")
+    for a, j in default_pairs(r):
+        x, p = args[a], r["sig"][j]
+        if a < npos or x["name"] in kws or p["name"] not in filled:
+            continue
+        real = ex.dval(filled[p["name"]])
+        n += 1
+        if not loosely_equal(real, eff[j]):
+            ties.append(f"the real binder fills parameter '{p['name']}' with {filled[p['name']]!r}; the row records {eff[j]}")
+        u = r["adef"][a]
+        if dv_judged(u) and dv_judged(real) and not loosely_equal(u, real):
+            bad.append((x["name"], f"argument '{x['name']}' ({x['type']}) is omitted: ATen computes with its schema default "
+                        f"{show_dval(u)}, the function's parameter '{p['name']}' is filled with {filled[p['name']]!r}"))
+    return bad, ties, n
+
+
+def show_dval(d) -> str:
+    k = d[0]
+    if k == "num":
+        return str(d[1]) if d[2] == 1 else f"{d[1]}/{d[2]}"
+    if k == "nums":
+        return "[" + ", ".join(str(n) if m == 1 else f"{n}/{m}" for n, m in d[1]) + "]"
+    return repr(d[1]) if len(d) > 1 else k
+
+
+def loosely_equal(u, v) -> bool:
+    """python's `==` on the values the DVals stand for (False == 0, (1,) vs [1])."""
+    def val(d):
+        from fractions import Fraction
+        k = d[0]
+        if k == "bool":
+            return ("n", Fraction(int(d[1])))
+        if k == "num":
+            return ("n", Fraction(d[1], d[2]))
+        if k == "nums":
+            return ("l", [Fraction(n, m) for n, m in d[1]])
+        if k == "str":
+            return ("s", d[1])
+        return (k,)
+    return val(u) == val(v)
+
+
+# ----------------------------------------------------------------------------- transcription basis (AST decision tokens)
+
+# The branch structure of every function OV.Model.C16Bind transcribes, as it was when the model was written: the tests of
+# `if`/`while`/conditional expressions, loop headers, filters of comprehensions, raised exception types and returned
+# expressions, in `ast.walk` order.  Torch-side functions are environment: drift means the model must be re-transcribed
+# (exit 2, with the difference).  /repo-side functions are the code under test: a structural change is not a verdict (the
+# per-case streams decide behaviour); it is recorded in the evidence (`transcription_drift_repo`).
+TRANSCRIBED_TORCH = {
+    "_building._construct_named_inputs_and_attrs": ("bindS / bindStk / effDefaults", [
+        "for param in signature.params", "return (named_inputs, named_attrs)", "if isinstance(param, ir.schemas.Parameter)",
+        "if reversed_args_stack", "if not isinstance(param, ir.schemas.AttributeParameter)", "if reversed_args_stack",
+        "if attribute is None", "if isinstance(attribute, ir.Attr)",
+        "if isinstance(attribute, int) and param.type == ir.AttributeType.FLOAT", "if param.variadic", "if param.name in kwargs",
+        "raise AssertionError", "if param.name in kwargs", "if param.required", "if param.required",
+        "if param.default is not None", "raise ValueError", "raise ValueError"]),
+    "_registration._get_overload": ("resolveKey", [
+        "if namespace == '_operator'", "if namespace == 'math'", "if namespace == 'torchvision'", "return getattr(operator, op_name)",
+        "return getattr(math, op_name)", "if importlib.util.find_spec('torchvision') is None", "if maybe_overload",
+        "return getattr(op_packet, overload)", "return None",
+        "if 'default' in op_packet._overload_names or '' in op_packet._overload_names", "if qualified_name.endswith('getitem')",
+        "return None", "return None", "return None", "return None"]),
+    "_dispatching.dispatch": ("dispatch", [
+        "if is_complex", "return (decomp_metas[0].onnx_function, 'The first implementation is used')", "if not decomp_metas",
+        "if not decomp_metas", "return (None, 'No decompositions registered for the complex-valued input')",
+        "return (None, 'No decompositions registered for the real-valued input')", "comp decomp_metas if decomp.is_complex",
+        "comp decomp_metas if not decomp.is_complex", "comp node.args if ", "comp node.kwargs.values() if "]),
+    "_core._convert_fx_arg_to_onnx_arg": ("attrAccepts (dtype -> int, device/layout/memory_format -> str)", [
+        "if arg is None", "if hasattr(arg, 'name')", "if isinstance(arg, (list, tuple))",
+        "if isinstance(arg, (torch.device, torch.memory_format, torch.layout))", "if isinstance(arg, torch.dtype)", "return arg",
+        "return None", "if isinstance(arg, torch.fx.Node) and arg.target is operator.getitem",
+        "if isinstance(arg, torch.fx.Node) and arg.op == 'get_attr'", "return node_name_to_values[arg.name]",
+        "return [_convert_fx_arg_to_onnx_arg(elem, node_name_to_values, node_name_to_local_funct", "return str(arg)",
+        "return torch_dtype_to_onnx_dtype(arg)", "if isinstance(source_outputs, Sequence)", "if arg.name in node_name_to_values",
+        "return node_name_to_local_functions[arg.name]", "return _handle_getitem_node(arg, node_name_to_values)",
+        "return node_name_to_values[arg.name]", "comp arg if "]),
+}
+TRANSCRIBED_REPO = {
+    "registration._check_and_normalize_names": ("nameOkCodes", [
+        "if isinstance(name, str)", "if not isinstance(names, tuple)", "for name_ in names", "return names", "raise TypeError",
+        "if name_.endswith('.default') or not _QUALIFIED_OPERATOR_NAME_REGEX.fullmatch(name_)", "raise ValueError"]),
+    "registration.Registry.register": ("register / addTo", [
+        "if complex", "if overloaded_function.complex", "if overloaded_function.overloads"]),
+    "registration.torch_op": ("torchOp", [
+        "if registry is None", "return wrapper", "if trace_only", "for name_ in _check_and_normalize_names(name)",
+        "return processed_func", "if private"]),
+    "torch_2_5.get_torchlib_ops": ("torchlibOps", [
+        "for (qualified_name, aten_overloads_func) in torchlib_registry.items()", "return function_metas",
+        "if qualified_name.startswith('internal::')", "for overload_func in aten_overloads_func.overloads",
+        "for complex_func in aten_overloads_func.complex"]),
+    "_schemas.get_attr_type": ("classify", [
+        "return ir.AttributeType.UNDEFINED", "if type_ in _PY_TYPE_TO_ATTR_TYPE", "if origin_type is None",
+        "if origin_type in (collections.abc.Sequence, Sequence, typing.List, list, typing.Tuple, tuple)",
+        "return _PY_TYPE_TO_ATTR_TYPE[type_]", "return ir.AttributeType.UNDEFINED", "if inner_type in _LIST_TYPE_TO_ATTR_TYPE",
+        "return _LIST_TYPE_TO_ATTR_TYPE[inner_type]"]),
+}
+
+
+def decision_tokens(fn) -> list[str]:
+    import ast
+    import textwrap
+
+    tree = ast.parse(textwrap.dedent(inspect.getsource(fn)))
+    out = []
+    for node in ast.walk(tree):
+        if isinstance(node, (ast.If, ast.While, ast.IfExp)):
+            out.append("if " + ast.unparse(node.test))
+        elif isinstance(node, ast.For):
+            out.append("for " + ast.unparse(node.target) + " in " + ast.unparse(node.iter))
+        elif isinstance(node, ast.Raise) and node.exc is not None:
+            e = node.exc
+            out.append("raise " + ast.unparse(e.func if isinstance(e, ast.Call) else e))
+        elif isinstance(node, ast.Return) and node.value is not None:
+            out.append("return " + ast.unparse(node.value)[:80])
+        elif isinstance(node, ast.comprehension):
+            out.append("comp " + ast.unparse(node.iter) + " if " + ";".join(ast.unparse(i) for i in node.ifs))
+    return out
+
+
+def transcription_drift(run) -> None:
+    from torch.onnx._internal.exporter import _building, _core, _dispatching, _registration
+
+    from onnxscript._framework_apis import torch_2_5
+    from onnxscript.function_libs.torch_lib import registration
+    from onnxscript.ir import _schemas
+
+    mods = {"_building": _building, "_core": _core, "_dispatching": _dispatching, "_registration": _registration,
+            "torch_2_5": torch_2_5, "registration": registration, "_schemas": _schemas}
+
+    def current(qual):
+        obj = mods[qual.split(".")[0]]
+        for part in qual.split(".")[1:]:
+            obj = getattr(obj, part)
+        return decision_tokens(obj)
+
+    def diff(want, got):
+        cw, cg = Counter(want), Counter(got)
+        return {"added": sorted((cg - cw).elements()), "removed": sorted((cw - cg).elements()),
+                "reordered": not (cg - cw) and not (cw - cg) and want != got}
+
+    n = 0
+    drift_repo = {}
+    for qual, (lean, want) in TRANSCRIBED_REPO.items():
+        try:
+            got = current(qual)
+        except Exception as e:  # the function is gone / not parseable: behaviour is judged by the streams
+            drift_repo[qual] = {"error": f"{type(e).__name__}: {e}"[:200], "lean": lean}
+            continue
+        n += len(got)
+        if got != want:
+            drift_repo[qual] = dict(diff(want, got), lean=lean)
+    run.coverage["transcription_drift_repo"] = drift_repo
+    for qual, (lean, want) in TRANSCRIBED_TORCH.items():
+        try:
+            got = current(qual)
+        except Exception as e:
+            raise core.Infra(f"cannot read the installed torch's {qual} (transcribed as {lean}): {type(e).__name__}: {e}") from e
+        n += len(got)
+        if got != want:
+            raise core.Infra(f"the installed torch's {qual} no longer has the decision structure transcribed as Lean `{lean}`: "
+                             f"{json.dumps(diff(want, got))[:600]} — re-transcribe OV/Model/C16Bind.lean and update TRANSCRIBED_TORCH")
+    run.coverage["transcription_decision_tokens"] = n
+
+
 # ----------------------------------------------------------------------------- the real binders
 
 
@@ -293,6 +602,34 @@ class RealBinder:
         if emu[0] != res[0] or (emu[0] == "ok" and emu[1] != res[1]):
             raise core.Infra(f"CPython call and inspect.Signature.bind disagree for {f.func.__name__}{pysig} on {args} {kwargs}")
         return res
+
+    def fill(self, f, npos: int, kws: list[str]):
+        """{parameter name: value the real binder / CPython fills in} for the parameters the call leaves unbound; None when
+        the call is rejected."""
+        args = [Sent(f"p{i}") for i in range(npos)]
+        kwargs = {n: Sent(f"k:{n}") for n in kws}
+        if isinstance(f, self.onnxscript.OnnxFunction):
+            sig = self.exporter_signature(f)
+            try:
+                named_inputs, named_attrs = self.building._construct_named_inputs_and_attrs(sig, args, kwargs)
+            except ValueError:
+                return None
+            out = {}
+            for p in sig.params:
+                is_in = isinstance(p, self.ir.schemas.Parameter)
+                v = (named_inputs if is_in else named_attrs).get(p.name)
+                if isinstance(v, Sent):
+                    continue
+                out[p.name] = v.value if isinstance(v, self.ir.Attr) else v
+            return out
+        pysig = inspect.signature(f.func)
+        try:
+            ba = pysig.bind(*args, **kwargs)
+        except TypeError:
+            return None
+        supplied = set(ba.arguments)
+        ba.apply_defaults()
+        return {n: v for n, v in ba.arguments.items() if n not in supplied}
 
     def _stub(self, func, pysig):
         k = ("stub", id(func))
@@ -1079,6 +1416,7 @@ def main(run: core.Run) -> None:
             if strip(tsig) != strip(r["sig"]):
                 tie_broken.append({"kind": "sig", "qualified": r["qualified"], "detail": f"/repo classifies {strip(r['sig'])}, the exporter {strip(tsig)}"})
 
+    transcription_drift(run)
     mark('rows_twin')
     # ---- (a) bind correspondence + oracle on the real binder
     real_calls = opinfo_calls(run, stats)
@@ -1158,6 +1496,8 @@ def main(run: core.Run) -> None:
                 stats["conforming_calls_failing_oracle"] += 1
 
     mark('opinfo_and_bind')
+    defaults_stream(run, drv, rows, objs, rb, stats, problems, tie_broken)
+    mark('defaults')
     # ---- rows whose standing w.r.t. the wide call model differs from the kernel-checked list `outsideK`
     for idx, kr, want in k_unlisted:
         r = rows[idx]
@@ -1406,7 +1746,9 @@ def main(run: core.Run) -> None:
     if not run.violations:
         required = ["model_err:tooMany", "model_err:unexpectedKw", "model_err:multipleValues", "model_err:missing", "bind_err_missing",
                     "bind_err_TypeError", "bind_ok", "names_dot_default", "names_refused", "names_accepted", "reg_sequences_with_duplicate",
-                    "dispatch_calls", "resolve_default_filled", "fx_calls_checked", "decl_valueerror", "decl_ok", "decl_sequences_with_private", "accept_matrix_accepted", "function_protos_checked", "scripted", "traced"]
+                    "dispatch_calls", "resolve_default_filled", "fx_calls_checked", "decl_valueerror", "decl_ok", "decl_sequences_with_private", "accept_matrix_accepted", "function_protos_checked", "scripted", "traced",
+                    "default_pairs_judged", "default_pairs_judged_num", "default_pairs_judged_bool", "default_pairs_judged_nums",
+                    "default_perturbed_differs", "default_perturbed_ok", "default_fills_checked"]
         zero = [k for k in required if not stats.get(k)]
         if zero:
             raise core.Infra(f"required coverage counters are zero: {zero}")
@@ -1433,6 +1775,9 @@ def replay(run: core.Run, rows, objs, data) -> None:
                 n += 1
                 res = rb.bind(f, case["npos"], case["kws"])
                 bad = judge_binding(r, f, case["npos"], case["kws"], res)
+                if r["res"] == "resolved" and r["adef"]:
+                    dres = judge_defaults(r, f, rb, case["npos"], case["kws"])
+                    bad = bad + [d for _, d in (dres[0] if dres else [])]
                 print(f"REPLAY call {r['qualified']} npos={case['npos']} kws={case['kws']} schema={r['schemaText']} -> {res[:2]} :: {bad}")
                 if bad:
                     report(f"replayed call {r['qualified']} npos={case['npos']} kws={case['kws']} still mis-binds: " + "; ".join(bad))
